@@ -236,7 +236,8 @@ def gen_call_3d(rng, m, kind='reader', in_range=True):
         return ['read_zslice_coord', float(m['zslices'][_idx(rng, n_s, 4)])]
     if k == 14:
         return rng.choice([['read_volume'], ['bin_header'], ['text_header'], ['attr', 'ilines'], ['attr', 'xlines'],
-                           ['attr', 'zslices'], ['attr', 'tracecount']])
+                           ['attr', 'zslices'], ['attr', 'tracecount'],
+                           ['header_sweep', sorted({_idx(rng, ntr, 4) for _ in range(3)})]])
     e, f = _rng_pair(rng, n_s, 4)
     f = min(f, n_s)
     zs = m['zslices']
@@ -315,7 +316,39 @@ def gen_call_2d(rng, m, kind='reader'):
     return ['get_trace', _idx(rng, ntr, bs[1])]
 
 
+def gen_call_big(rng, m, kind='reader'):
+    """Calls for the one large file of the library (a single inline group is a range read of several MiB, the data
+    section one of 9 MiB): those whose cost does not grow with the number of trace columns."""
+    n_il, n_xl, n_s, ntr = m['n_il'], m['n_xl'], m['n_s'], m['tracecount']
+    k = rng.randrange(8)
+    if kind == 'emulator':
+        if k < 3:
+            return ['em_iline', int(m['ilines'][_idx(rng, n_il, 4)])]
+        if k < 5:
+            return ['em_trace', _idx(rng, ntr, 4)]
+        if k == 5:
+            return ['em_header', _idx(rng, ntr, 4)]
+        return ['em_xline', int(m['xlines'][_idx(rng, n_xl, 4)])]
+    if k < 3:
+        return ['read_inline', _idx(rng, n_il, 4)]
+    if k == 3:
+        return ['read_crossline', _idx(rng, n_xl, 4)]
+    if k == 4:
+        return ['get_trace', _idx(rng, ntr, 4)]
+    if k == 5:
+        e, f = _rng_pair(rng, n_s, 128)
+        return ['get_trace', _idx(rng, ntr, 4), e, f]
+    if k == 6:
+        a = _idx(rng, n_il, 4)
+        c_ = _idx(rng, n_xl, 4)
+        e, f = _rng_pair(rng, n_s, 128)
+        return ['read_subvolume', a, min(n_il, a + rng.randint(1, 5)), c_, min(n_xl, c_ + rng.randint(1, 9)), e, f]
+    return ['gen_trace_header', _idx(rng, ntr, 4)]
+
+
 def gen_call(rng, m, kind='reader'):
+    if m.get('big'):
+        return gen_call_big(rng, m, kind)
     if m['is_2d']:
         return gen_call_2d(rng, m, kind)
     return gen_call_3d(rng, m, kind)
@@ -326,6 +359,12 @@ def fixed_battery(m, kind='reader'):
     calls = []
     ntr, n_s = m['tracecount'], m['n_s']
     st = m['stored']
+    if m.get('big'):
+        calls = [['read_inline', 0], ['read_inline', m['n_il'] - 1], ['read_crossline', 5], ['get_trace', ntr - 1],
+                 ['get_trace', 7, 100, 300], ['read_subvolume', 2, 6, 3, 9, 120, 260], ['gen_trace_header', ntr // 2]]
+        if kind == 'emulator':
+            calls += [['em_iline', int(m['ilines'][1])], ['em_trace', 3], ['em_header', 0]]
+        return calls
     if m['is_2d']:
         calls += [['get_trace', 0], ['get_trace', ntr - 1], ['read_subplane', 0, ntr, 0, n_s],
                   ['read_subplane', ntr // 2, ntr // 2 + 1, max(0, n_s - 3), n_s],
